@@ -384,6 +384,9 @@ func init() {
 				// a wallet drained to exactly zero between two truncations, then overspend probes: a balance of zero is a
 				// balance (the checkpoint of the first truncation must not outlive the second)
 				c06Drained(w, []string{"C05"})
+				// a truncation cancelled half way (some vertices stored, the funds not yet), then completed ones: what the
+				// interrupted attempt had stored still counts - value is neither created nor destroyed by a retry
+				longScenario(w, []string{"C05"}, 1003, ledger.LongOpts{Nodes: 1, Size: 1035, Truncations: 2, Between: 150, PostOps: 40, Interrupt: true})
 			}
 			if w.Batch == w.Batches-2 {
 				// a ledger history with amounts near 2^63 hopping through several wallets and being checkpointed: no
